@@ -4,24 +4,48 @@ From SV Require Import Fmt.BspPropVersion.
 Import ListNotations.
 Open Scope N_scope.
 
+(** what [reread_ok] means: the writer writes in [w] with ladder [lw] and header number [h'] (the one it sets, or [h]); the fresh
+    reader of (BSP version, [h'], size of [w]) records [w], decodes with [w], runs the same ladder *)
+Lemma reread_ok_spec : forall c bv h st, reread_ok (save_reread c bv h st) = true ->
+  exists r w lw h' sz, write_props c st h = Some (Some (r, w, lw, h')) /\ size_of c w = Some sz /\
+                       read_sized c bv h' sz 0 = Some (Some (w, w, lw)).
+Proof.
+  intros c bv h st Hok. unfold save_reread in Hok.
+  destruct (write_props c st h) as [[[[[r w] lw] h']|]|] eqn:Hw; try discriminate.
+  destruct (size_of c w) as [sz|] eqn:Hs; try discriminate.
+  destruct (read_sized c bv h' sz 0) as [[[[r' d] ld]|]|] eqn:Hr; try discriminate.
+  cbn in Hok.
+  apply andb_true_iff in Hok. destruct Hok as [Hok H3]. apply andb_true_iff in Hok. destruct Hok as [H1 H2].
+  apply N.eqb_eq in H1, H2, H3. subst. exists r, w, lw, h', sz. auto.
+Qed.
+
 (** History 1 for every point of the domain: whatever format the reader of the empty lump settles on, the writer writes in a
-    format [w] (with ladder [lw]) such that a fresh reader of the written file - same BSP version, same header number, records of
-    the size of [w] - records [w], decodes with [w] and uses the same ladder. *)
+    format [w] (with ladder [lw]) such that a fresh reader of the written file - same BSP version, the header number save() writes,
+    records of the size of [w] - records [w], decodes with [w] and uses the same ladder. *)
 Theorem from_empty_stable : forall c, pv_from_empty_ok c = true ->
   forall bv h, In bv (c_bsp c) -> In h pv_hdrs ->
   forall st, read_empty c bv h 0 = Some (Some st) ->
-  exists r w lw sz, write_props c st = Some (Some (r, w, lw)) /\ size_of c w = Some sz /\
-                    read_sized c bv h sz 0 = Some (Some (w, w, lw)).
+  exists r w lw h' sz, write_props c st h = Some (Some (r, w, lw, h')) /\ size_of c w = Some sz /\
+                       read_sized c bv h' sz 0 = Some (Some (w, w, lw)).
 Proof.
   intros c Hok bv h Hbv Hh st Hre.
   unfold pv_from_empty_ok in Hok. rewrite forallb_forall in Hok. specialize (Hok bv Hbv).
   rewrite forallb_forall in Hok. specialize (Hok h Hh).
   unfold hist_from_empty_ok, hist_from_empty in Hok. rewrite Hre in Hok.
-  destruct (write_props c st) as [[[[r w] lw]|]|] eqn:Hw; try discriminate.
-  destruct (size_of c w) as [sz|] eqn:Hs; try discriminate.
-  destruct (read_sized c bv h sz 0) as [[[[r' d] ld]|]|] eqn:Hr; try discriminate.
-  apply andb_true_iff in Hok. destruct Hok as [Hok H3]. apply andb_true_iff in Hok. destruct Hok as [H1 H2].
-  apply N.eqb_eq in H1, H2, H3. subst. exists r, w, lw, sz. auto.
+  destruct (save_reread c bv h st) as [x|] eqn:Hsr; cbn in Hok; try discriminate.
+  apply reread_ok_spec. rewrite Hsr. exact Hok.
+Qed.
+
+(** History 3: props assigned to an object that never read the lump - no format recorded -, saved, read by a fresh object. *)
+Theorem never_read_stable : forall c, pv_never_read_ok c = true ->
+  forall bv h, In bv (c_bsp c) -> In h pv_hdrs ->
+  exists r w lw h' sz, write_props c 0 h = Some (Some (r, w, lw, h')) /\ size_of c w = Some sz /\
+                       read_sized c bv h' sz 0 = Some (Some (w, w, lw)).
+Proof.
+  intros c Hok bv h Hbv Hh.
+  unfold pv_never_read_ok in Hok. rewrite forallb_forall in Hok. specialize (Hok bv Hbv).
+  rewrite forallb_forall in Hok. specialize (Hok h Hh).
+  apply reread_ok_spec. exact Hok.
 Qed.
 
 (** an empty lump is either rejected or leads to the above: no third outcome, and every row exists *)
@@ -48,7 +72,7 @@ Qed.
 Theorem named_detected : forall c, pv_named_ok c = true ->
   forall bv m, In bv (c_bsp c) -> 1 <= m <= N.of_nat (List.length (c_members c)) ->
   exists lw h sz d ld,
-    write_props c m = Some (Some (m, m, lw)) /\ hdr_of c m = Some h /\ size_of c m = Some sz /\
+    hdr_of c m = Some h /\ size_of c m = Some sz /\ write_props c m h = Some (Some (m, m, lw, h)) /\
     read_sized c bv h sz 0 = Some (Some (d, d, ld)) /\ (d = m -> ld = lw) /\ hdr_of c d = Some h /\ size_of c d = Some sz /\
     read_sized c bv h sz m = Some (Some (m, m, lw)).
 Proof.
@@ -56,11 +80,12 @@ Proof.
   unfold pv_named_ok in Hok. rewrite forallb_forall in Hok. specialize (Hok bv Hbv).
   rewrite forallb_forall in Hok. specialize (Hok m (proj2 (member_ids_in c m) Hm)).
   unfold hist_named_ok in Hok.
-  destruct (write_props c m) as [[[[r w] lw]|]|]; try discriminate.
   destruct (hdr_of c m) as [h|]; try discriminate.
   destruct (size_of c m) as [sz|]; try discriminate.
+  destruct (write_props c m h) as [[[[[r w] lw] h'']|]|] eqn:Hwp; try discriminate.
   apply andb_true_iff in Hok. destruct Hok as [Hok H4].
   apply andb_true_iff in Hok. destruct Hok as [Hok H3].
+  apply andb_true_iff in Hok. destruct Hok as [Hok H0].
   apply andb_true_iff in Hok. destruct Hok as [H1 H2].
   destruct (read_sized c bv h sz 0) as [[[[r' d] ld]|]|] eqn:Hr0; try discriminate.
   destruct (read_sized c bv h sz m) as [[[[r'' d''] ld'']|]|] eqn:Hrm; try discriminate.
@@ -71,19 +96,20 @@ Proof.
   apply andb_true_iff in H7. destruct H7 as [H7 H8].
   apply andb_true_iff in H4. destruct H4 as [H4 H11].
   apply andb_true_iff in H4. destruct H4 as [H9 H10].
-  apply N.eqb_eq in H1, H2, H5, H7, H8, H9, H10, H11.
-  subst. exists lw, h, sz, d, ld. repeat split; auto.
+  apply N.eqb_eq in H0, H1, H2, H5, H7, H8, H9, H10, H11.
+  subst. exists lw, h, sz, d, ld.
+  refine (conj _ (conj _ (conj _ (conj _ (conj _ (conj _ (conj _ _))))))); auto.
   intros Hdm. subst d. rewrite N.eqb_refl in H6. cbn in H6. apply N.eqb_eq in H6. exact H6.
 Qed.
 
 (** ... and when no other member has that (header number, record size), the fresh reader settles on [m] itself. *)
 Theorem named_detected_unique : forall c, pv_named_ok c = true ->
   forall bv m, In bv (c_bsp c) -> 1 <= m <= N.of_nat (List.length (c_members c)) -> unique_pair c m = true ->
-  exists lw h sz, write_props c m = Some (Some (m, m, lw)) /\ hdr_of c m = Some h /\ size_of c m = Some sz /\
+  exists lw h sz, hdr_of c m = Some h /\ size_of c m = Some sz /\ write_props c m h = Some (Some (m, m, lw, h)) /\
                   read_sized c bv h sz 0 = Some (Some (m, m, lw)).
 Proof.
   intros c Hok bv m Hbv Hm Hu.
-  destruct (named_detected c Hok bv m Hbv Hm) as [lw [h [sz [d [ld [Hw [Hh [Hs [Hr [Hl [Hhd [Hsd _]]]]]]]]]]]].
+  destruct (named_detected c Hok bv m Hbv Hm) as [lw [h [sz [d [ld [Hh [Hs [Hw [Hr [Hl [Hhd [Hsd _]]]]]]]]]]]].
   exists lw, h, sz. repeat split; auto.
   assert (Hd : d = m).
   { unfold unique_pair in Hu. rewrite Hh, Hs in Hu. rewrite forallb_forall in Hu.
@@ -102,4 +128,11 @@ Theorem first_match_refuted :
   hist_from_empty_ok pv_first_match_cfg 20 11 = false /\
   hist_from_empty pv_first_match_cfg 20 11 = Some (Some (1, 11, Some (2, 2, 7))) /\
   hist_from_empty_ok pv_last_match_cfg 20 11 = true.
+Proof. vm_compute. repeat split. Qed.
+
+(** the header number left as the opened file had it while the records are in the fallback format: the fresh reader raises *)
+Theorem header_left_refuted :
+  hist_never_read_ok pv_header_left_cfg 20 10 = false /\
+  hist_never_read pv_header_left_cfg 20 10 = Some (1, 5, None) /\
+  hist_never_read_ok pv_header_set_cfg 20 10 = true.
 Proof. vm_compute. repeat split. Qed.
